@@ -26,6 +26,8 @@
 //	          []string / []interface{} / [][]byte / map keys: allocation must stay linear in the input
 //	rand      random bytes, 0..64 long
 //	prefix    EVERY 1- and 2-byte input
+//	arrays    stream arrays / maps holding 0, 1, 2, N, 1000 elements more than the fixed-size Go array [N]T they are decoded
+//	          into, the array surrounded by sentinel fields (arrays.go: deterministic, memory-safety oracle)
 //
 // Oracle per Decode: it returns (value or error); no panic escapes; the process survives; bytes
 // allocated (/gc/heap/allocs:bytes delta) <= K0 + K1*len(input) with K0, K1 derived from the code's
@@ -79,7 +81,8 @@ type Job struct {
 	Stk  int     `json:"stk,omitempty"` // stack cap in MB for this job (default 64)
 	NV   int     `json:"nv,omitempty"`  // number of values in the input when known by construction (0: unknown)
 	Kind string  `json:"k"`
-	Ex   int     `json:"e"` // -1: single input; 0..255: every input that starts with this byte and is 1 or 2 bytes long
+	Ex   int     `json:"e"`            // -1: single input; 0..255: every input that starts with this byte and is 1 or 2 bytes long
+	Ar   *ArSpec `json:"ar,omitempty"` // stream "arrays" (arrays.go): the document and its destination are built from this
 }
 
 type Bad struct {
@@ -87,6 +90,7 @@ type Bad struct {
 	Why string `json:"why"`
 	Val uint64 `json:"val"`
 	Lim uint64 `json:"lim"`
+	Det string `json:"det,omitempty"`
 }
 
 type Result struct {
@@ -155,7 +159,7 @@ func judgeOne(f hx.Fmt, o hx.Opts, st hx.TypeStats, t reflect.Type, h func() cod
 	}
 	bad := func(why string, v, l uint64) {
 		if len(res.Bad) < 8 {
-			res.Bad = append(res.Bad, Bad{hex.EncodeToString(in), why, v, l})
+			res.Bad = append(res.Bad, Bad{X: hex.EncodeToString(in), Why: why, Val: v, Lim: l})
 		}
 	}
 	if esc {
@@ -229,7 +233,9 @@ func workerMain(path string, from int) {
 		} else {
 			debug.SetMaxStack(64 << 20)
 		}
-		if j.Ex < 0 {
+		if j.Ar != nil {
+			arRun(f, *j.Ar, &res)
+		} else if j.Ex < 0 {
 			in := j.input()
 			res.Cls, res.Nread = judgeOne(f, j.O, st, t, func() codec.Handle { return hx.Handle(f, j.O) }, in, j.NV, &res)
 		} else {
@@ -815,7 +821,7 @@ func prefixes(c *ctx, ndest int) {
 // modelKind: 1 Decode(&interface{}), 2 Decode(&Raw); 0: outside the wire models
 func modelKind(j Job) int {
 	o := j.O
-	if hx.Fmt(j.F) == hx.Json || o.IO || o.Ext != 0 || o.SliceType != 0 || o.MapType != 0 || o.ValidateUnicode {
+	if j.Ar != nil || hx.Fmt(j.F) == hx.Json || o.IO || o.Ext != 0 || o.SliceType != 0 || o.MapType != 0 || o.ValidateUnicode {
 		return 0
 	}
 	switch hx.Dests[j.D].Name {
@@ -1012,6 +1018,7 @@ func main() {
 	nSym := flag.Int("symbols", 1, "binc symbol definition + references documents per (destination, symbol length)")
 	nChunk := flag.Int("chunks", 1, "cbor many-chunk indefinite strings per (destination, ValidateUnicode)")
 	nTag := flag.Int("tagrun", 1, "cbor runs of millions of tags per (pattern, destination)")
+	nArrays := flag.Int("arrays", 1, "stream arrays longer than the Go array, with sentinel fields (0: skip)")
 	workers := flag.Int("workers", 8, "worker subprocesses")
 	maxModel := flag.Int("model", 1500, "model cases at most")
 	worker := flag.String("worker", "", "(internal) job file")
@@ -1042,6 +1049,9 @@ func main() {
 		c.jobs[i], c.jobs[k] = c.jobs[k], c.jobs[i]
 	}
 	prefixes(c, *nPrefix)
+	if *nArrays > 0 {
+		arrayStream(c) // after the shuffle and without a random choice: the other streams are what they were
+	}
 
 	dir := *cases + "_jobs"
 	os.RemoveAll(dir)
@@ -1114,8 +1124,23 @@ func main() {
 		if j.O.IO {
 			tr = fmt.Sprintf("io%d", j.O.RBS)
 		}
+		if j.Ar != nil {
+			d = hx.Dest{Name: j.Ar.Name(), T: d.T}
+		}
 		cid := fmt.Sprintf("%s:%s:%s", f, d.Name, j.Kind)
 		cj := map[string]interface{}{"format": f.String(), "dest": d.Name, "opts": j.O.String(), "kind": j.Kind, "input": j.X}
+		if j.Ar != nil {
+			cj["opts"] = "default options / ErrorIfNoArrayExpand, over []byte, unbuffered and buffered io.Reader"
+			cj["form"] = []string{"definite lengths", "cbor indefinite lengths"}[j.Ar.Form]
+			if o.fatal != "" || o.res == nil || len(o.res.Bad) > 0 { // the document is rebuilt from the spec
+				in := hex.EncodeToString(arBuild(f, *j.Ar).in)
+				if len(in) > 400 {
+					cj["input_len"] = len(in) / 2
+					in = in[:400] + "..."
+				}
+				cj["input"] = in
+			}
+		}
 		if j.Ex >= 0 {
 			cj["input"] = fmt.Sprintf("every 1- and 2-byte input starting with %02x", j.Ex)
 		}
@@ -1154,6 +1179,12 @@ func main() {
 					"nread-range":         "NumBytesRead outside 0..len(input)",
 					"ok-without-progress": "Decode returned no error without consuming a byte",
 				}[b.Why]
+				if w, ok := arWhat[b.Why]; ok {
+					what = w
+				}
+				if b.Det != "" {
+					cb["detail"] = b.Det
+				}
 				sum.FailC(j.Kind, b.Why+":"+cid, what, cb)
 			}
 			if j.Want == 1 && res.Cls != 0 {
@@ -1165,7 +1196,7 @@ func main() {
 			if j.Ex < 0 {
 				in := j.input()
 				key := ""
-				if !(j.Kind == "valid" && res.Cls == 0) {
+				if !(j.Kind == "valid" && res.Cls == 0) && !(j.Ar != nil && !j.Ar.arExcess()) { // arrays: a document that fits is a control
 					key = fmt.Sprintf("%s/%s/c%d", cid, tr, res.Cls)
 				}
 				sum.Count(j.Kind+"."+f.String(), key)
